@@ -50,8 +50,11 @@ def run(ctx):
         return {'harness': 'c20_mpi', 'line': line}
 
     # ------------------------------------------------------------ PROC
+    nhang = 0
     for mode in modes:
         for pool in (0, 1):
+            if nhang >= 2:    # every further process would wait for its watchdog as well
+                break
             args = [h, 'proc', str(mode), str(pool), str(npairs), str(ctx.seed)]
             rc, out = sh(args, timeout=150, env=env)
             lines = [x for x in out.split('\n') if x.startswith('OUT ')]
@@ -64,6 +67,7 @@ def run(ctx):
             if any('hang=1' in x for x in lines) or rc == 4 or rc == 124:
                 r.hits.append(Hit('monitor', 'C20:proc:hang', 'PROC %s: requests lost or runtime hung (a registered continuation never ran / '
                                   'stop_polling or shutdown did not return): %s' % (tag, ' | '.join(lines)[-400:]), rep))
+                nhang += 1
                 continue
             if rc != 0 or not main:
                 r.hits.append(Hit('monitor', 'C20:proc:crash', 'PROC %s: harness crashed rc=%d: %s' % (tag, rc, out[-600:]), rep))
